@@ -6,6 +6,9 @@
 //   harness stressbuf <kind> <nprod> <npush> [spin] [tracefile]   threads; oracle inside; prints OK .../FAIL ...;
 //                                    tracefile: the consumer's history (one line per round: b <size()> <empty()> p.s p.s ...)
 //                                    for the extracted acceptance function (ocaml/C12/driver.ml tracebuf)
+//   harness stressobs <kind> <nprod> <bursts> <burstlen> [tracefile]   producers push in bursts separated by quiescent points
+//                                    (all producers parked, no push/consume in progress) at which size()/empty() must
+//                                    describe exactly what the next consume() returns; trace: b/Q <size> <empty> p.s ...
 //   harness stressval <kind> <n> [spin] [tracefile]   history lines: u1 v | u0 v | g v | q i (quiescent point, see below)
 // kind: pod (trivially copyable struct / int) | str (std::string) | vec (std::vector<int>)
 #include <atomic>
@@ -248,6 +251,94 @@ static int stressbuf(int nprod, long npush, int spinN, const char *tracePath)
   return 0;
 }
 
+// ------------------------------------------------------------- stress: quiescent observations
+// Producers push bursts; between bursts all of them park at a barrier.  While a burst is running the
+// consumer consumes continuously (so that consume() overlaps push_back as often as possible).  Once all
+// producers are parked nothing is in progress: size() must be exactly the number of buffered elements,
+// empty() must say whether there are any - a consumer that consumes only when !empty() (or size() > 0)
+// would otherwise never drain them (model: tbuf_quiescent_round).
+template <typename T>
+static int stressobs(int nprod, long bursts, long burstlen, const char *tracePath)
+{
+  struct Round { char tag; size_t before; bool wasEmpty; std::vector<std::pair<int, long>> els; };
+  std::vector<Round> trace;
+  TransactionalBuffer<T> buf;
+  const TransactionalBuffer<T> &cbuf = buf;
+  std::atomic<long> arrived(0), release(0);
+  std::vector<std::thread> prods;
+  for (int p = 0; p < nprod; ++p)
+    prods.emplace_back([&, p] {
+      long seq = 0;
+      for (long b = 1; b <= bursts; ++b) {
+        for (long k = 0; k < burstlen; ++k) {
+          T v = EC<T>::enc(p, seq++);
+          if (k & 1) buf.push_back(v); else buf.push_back(std::move(v));
+        }
+        arrived.fetch_add(1);
+        while (release.load() < b) std::this_thread::yield();
+      }
+    });
+  std::vector<std::string> fails;
+  std::vector<long> next((size_t)nprod, 0);
+  long got = 0, overlapped = 0, quietNonEmpty = 0;
+  auto account = [&](const std::vector<T> &b, char tag, size_t before, bool wasEmpty) {
+    if (tracePath) { trace.push_back(Round{tag, before, wasEmpty, {}}); trace.back().els.reserve(b.size()); }
+    for (size_t k = 0; k < b.size(); ++k) {
+      int p = -1; long s = -1;
+      bool ok = EC<T>::dec(b[k], p, s) && p >= 0 && p < nprod;
+      ++got;
+      if (tracePath) trace.back().els.push_back(ok ? std::make_pair(p, s) : std::make_pair(-1, -1L));
+      if (!ok) { if (fails.size() < 5) fails.push_back("corrupt payload / unknown producer in a batch"); continue; }
+      if (s != next[(size_t)p]) {
+        if (fails.size() < 5) fails.push_back("producer " + std::to_string(p) + ": got seq " + std::to_string(s) + " where seq " + std::to_string(next[(size_t)p]) + " was due");
+        next[(size_t)p] = s + 1;
+      } else ++next[(size_t)p];
+    }
+  };
+  for (long b = 1; b <= bursts; ++b) {
+    while (arrived.load() < (long)nprod * b) {
+      std::vector<T> v = buf.consume();
+      if (v.empty()) { std::this_thread::yield(); continue; }   // nothing to record or check
+      ++overlapped;
+      account(v, 'b', 0, true);
+    }
+    // quiescent point: every producer is parked at the barrier
+    size_t n = cbuf.size();
+    bool e = cbuf.empty();
+    std::vector<T> v = buf.consume();
+    if (!v.empty()) ++quietNonEmpty;
+    account(v, 'Q', n, e);
+    if (fails.size() < 5) {
+      if (e && !v.empty())
+        fails.push_back("quiescent point " + std::to_string(b) + ": empty() == true and size() == " + std::to_string(n) + " while " + std::to_string(v.size()) +
+                        " element(s) were buffered and no push_back/consume was in progress (a consumer that consumes only when !empty() never receives them)");
+      else if (n != v.size())
+        fails.push_back("quiescent point " + std::to_string(b) + ": size() == " + std::to_string(n) + " but the buffer held " + std::to_string(v.size()) + " element(s), no push_back/consume in progress");
+      else if (!e && v.empty())
+        fails.push_back("quiescent point " + std::to_string(b) + ": empty() == false but the buffer was empty");
+      if (cbuf.size() != 0 || !cbuf.empty())
+        fails.push_back("quiescent point " + std::to_string(b) + ": right after consume() size() == " + std::to_string(cbuf.size()) + ", empty() == " + (cbuf.empty() ? "true" : "false"));
+    }
+    release.store(b);
+  }
+  for (auto &t : prods) t.join();
+  const long total = (long)nprod * bursts * burstlen;
+  if (got != total && fails.size() < 8) fails.push_back("consumed " + std::to_string(got) + " elements, pushed " + std::to_string(total));
+  if (tracePath) {
+    std::ofstream tf(tracePath);
+    tf << "TB " << nprod << " " << bursts * burstlen << "\n";
+    for (auto &r : trace) {
+      tf << r.tag << " " << r.before << " " << (r.wasEmpty ? 1 : 0);
+      for (auto &x : r.els) tf << " " << x.first << "." << x.second;
+      tf << "\n";
+    }
+    tf << "END\n";
+  }
+  if (fails.empty()) std::cout << "OK quiescent_points=" << bursts << " overlapping_consumes=" << overlapped << " nonempty_at_quiescence=" << quietNonEmpty << " elements=" << got << "\n";
+  else for (auto &f : fails) std::cout << "FAIL " << f << "\n";
+  return 0;
+}
+
 // ------------------------------------------------------------------------- stress: value
 // The producer assigns 1..n.  After every few assignments (and after the last one) it pauses at a
 // "quiescent point": it publishes quiet = i (assignment i has completed) and waits for the consumer's
@@ -263,7 +354,7 @@ static int stressval(long n, int spinN, const char *tracePath)
     while (!go.load()) {}
     for (long i = 1; i <= n; ++i) {
       tv = VC<T>::enc(i);
-      if (i == n || (i * 2654435761UL >> 7) % 4 == 0) { quiet.store(i); while (ack.load() < i) {} }
+      if (i == n || (i * 2654435761UL >> 7) % 8 == 0) { quiet.store(i); while (ack.load() < i) std::this_thread::yield(); }
       else if (spinN) spin((int)(i % (spinN + 1)));
     }
   });
@@ -334,6 +425,15 @@ int main(int argc, char **argv)
     if (kind == "pod") return stressbuf<Pod>(nprod, npush, sp, tp);
     if (kind == "str") return stressbuf<std::string>(nprod, npush, sp, tp);
     return stressbuf<std::vector<int>>(nprod, npush, sp, tp);
+  }
+  if (mode == "stressobs") {
+    int nprod = argc > 3 ? std::atoi(argv[3]) : 2;
+    long bursts = argc > 4 ? std::atol(argv[4]) : 100;
+    long blen = argc > 5 ? std::atol(argv[5]) : 8;
+    const char *tp = argc > 6 ? argv[6] : nullptr;
+    if (kind == "pod") return stressobs<Pod>(nprod, bursts, blen, tp);
+    if (kind == "str") return stressobs<std::string>(nprod, bursts, blen, tp);
+    return stressobs<std::vector<int>>(nprod, bursts, blen, tp);
   }
   if (mode == "stressval") {
     long n = argc > 3 ? std::atol(argv[3]) : 1000;
